@@ -18,6 +18,7 @@ import (
 	"encoding/hex"
 	"errors"
 	"fmt"
+	"reflect"
 	"sort"
 	"strconv"
 	"strings"
@@ -311,10 +312,10 @@ func parseV(toks []string) (V, []string) {
 // ---------------------------------------------------------------------------
 // Go counterparts
 
-type AStack stackage.Stack       // alias, no methods
-type SStack stackage.Stack       // alias with its own String
-type ACond stackage.Condition    // alias, no methods
-type SCond stackage.Condition    // alias with its own String
+type AStack stackage.Stack    // alias, no methods
+type SStack stackage.Stack    // alias with its own String
+type ACond stackage.Condition // alias, no methods
+type SCond stackage.Condition // alias with its own String
 
 func (r SStack) String() string { return "<<SStack.String>>" } // must never show up: aliases are converted first
 func (r SCond) String() string  { return "<<SCond.String>>" }
@@ -664,6 +665,12 @@ func BuildStack(v V) stackage.Stack {
 	}
 	if v.Cfg.Eqf != 0 {
 		s.SetEqualityPolicy(eqPolicy(v.Cfg.Eqf))
+	}
+	if v.Cfg.Vpf != 0 {
+		s.SetValidityPolicy(closureFor(reflect.TypeOf(stackage.ValidityPolicy(nil)), v.Cfg.Vpf).Interface().(stackage.ValidityPolicy))
+	}
+	if v.Cfg.Rpf != 0 {
+		s.SetPresentationPolicy(closureFor(reflect.TypeOf(stackage.PresentationPolicy(nil)), v.Cfg.Rpf).Interface().(stackage.PresentationPolicy))
 	}
 	if v.Cfg.Opt&fNNest != 0 {
 		s.SetNoNesting(true)
